@@ -27,8 +27,8 @@ type SimReader struct {
 	ErrAt int   // offset at which reads start failing with ErrInjected (<0: never)
 	zeros int
 	// observations
-	Reads, ZeroReads, ShortReads, EOFWithData, CutHits, ErrReturned int64
-	Finished                                                        bool // EOF or the error has been returned
+	Reads, ZeroReads, ShortReads, EOFWithData, CutHits, ErrReturned, ErrWithData int64
+	Finished                                                                     bool // EOF or the error has been returned
 }
 
 const (
@@ -141,6 +141,13 @@ func (r *SimReader) Read(p []byte) (int, error) {
 	r.pos += n
 	if i := sort.SearchInts(r.cuts, r.pos); i < len(r.cuts) && r.cuts[i] == r.pos {
 		r.CutHits++
+	}
+	if r.ErrAt >= 0 && r.pos == r.ErrAt && n > 0 && r.t.Draw(2) == 1 {
+		// the last bytes before the fault arrive together with the error: legal
+		r.ErrWithData++
+		r.ErrReturned++
+		r.Finished = true
+		return n, ErrInjected
 	}
 	if r.pos == len(r.data) && (r.ErrAt < 0 || r.ErrAt > r.pos) && r.t.Draw(2) == 1 {
 		// data together with EOF: legal
